@@ -6,7 +6,7 @@ sys.path.insert(0, os.path.join(VERIF, "tools"))
 import registry, manifest_meta as mm
 
 props = [json.loads(l)["id"] for l in open(os.path.join(VERIF, "properties.jsonl"))]
-claimed = [p for p in props if p in mm.CLAIMS and any(h["prop"] == p for h in registry.HARNESSES)]
+claimed = [p for p in props if p in mm.CLAIMS and p in mm.CLAIMED_NOW and any(h["prop"] == p and h.get("tier", "quick") == "quick" for h in registry.HARNESSES)]
 checks = []
 for p in claimed:
     c = mm.CLAIMS[p]
@@ -24,7 +24,7 @@ for p in claimed:
 na = []
 for p in props:
     if p not in claimed:
-        na.append({"property_id": p, "reason": mm.NOT_APPLICABLE.get(p, mm.NOT_YET.get(p, "not claimed"))})
+        na.append({"property_id": p, "reason": mm.NOT_APPLICABLE.get(p, mm.UNCLAIMED_REASONS.get(p, "not claimed"))})
 hooks_commits = subprocess.run(["git", "-C", "/repo", "log", "--format=%H", "--grep=^verif hooks"], capture_output=True, text=True).stdout.split()
 m = {
     "version": 1,
